@@ -585,10 +585,10 @@ impl ser::SerializeStruct for SerializeTimestamp {
     }
 
     fn end(self) -> std::result::Result<Self::Ok, Self::Error> {
-        Ok(chrono::Duration::seconds(self.secs)
-            .checked_add(&chrono::Duration::nanoseconds(self.nanos.into()))
-            .unwrap()
-            .into())
+        let duration = chrono::Duration::try_seconds(self.secs)
+            .and_then(|secs| secs.checked_add(&chrono::Duration::nanoseconds(self.nanos.into())))
+            .ok_or_else(|| SerializationError::SerdeError("duration is out of range".to_owned()))?;
+        Ok(duration.into())
     }
 }
 
@@ -789,6 +789,17 @@ enum TimeSerializer {
 }
 
 #[cfg(feature = "chrono")]
+impl TimeSerializer {
+    // A marker newtype struct wrapped around anything but the payload written by
+    // the `Duration` / `Timestamp` wrappers: report it instead of panicking.
+    fn unexpected<T>(self) -> Result<T> {
+        Err(SerializationError::SerdeError(
+            "unexpected value in Duration/Timestamp marker newtype struct".to_owned(),
+        ))
+    }
+}
+
+#[cfg(feature = "chrono")]
 impl ser::Serializer for TimeSerializer {
     type Ok = Value;
     type Error = SerializationError;
@@ -829,74 +840,74 @@ impl ser::Serializer for TimeSerializer {
     }
 
     fn serialize_bool(self, _v: bool) -> Result<Value> {
-        unreachable!()
+        self.unexpected()
     }
 
     fn serialize_i8(self, _v: i8) -> Result<Value> {
-        unreachable!()
+        self.unexpected()
     }
 
     fn serialize_i16(self, _v: i16) -> Result<Value> {
-        unreachable!()
+        self.unexpected()
     }
 
     fn serialize_i32(self, _v: i32) -> Result<Value> {
-        unreachable!()
+        self.unexpected()
     }
 
     fn serialize_i64(self, _v: i64) -> Result<Value> {
-        unreachable!()
+        self.unexpected()
     }
 
     fn serialize_u8(self, _v: u8) -> Result<Value> {
-        unreachable!()
+        self.unexpected()
     }
 
     fn serialize_u16(self, _v: u16) -> Result<Value> {
-        unreachable!()
+        self.unexpected()
     }
 
     fn serialize_u32(self, _v: u32) -> Result<Value> {
-        unreachable!()
+        self.unexpected()
     }
 
     fn serialize_u64(self, _v: u64) -> Result<Value> {
-        unreachable!()
+        self.unexpected()
     }
 
     fn serialize_f32(self, _v: f32) -> Result<Value> {
-        unreachable!()
+        self.unexpected()
     }
 
     fn serialize_f64(self, _v: f64) -> Result<Value> {
-        unreachable!()
+        self.unexpected()
     }
 
     fn serialize_char(self, _v: char) -> Result<Value> {
-        unreachable!()
+        self.unexpected()
     }
 
     fn serialize_bytes(self, _v: &[u8]) -> Result<Value> {
-        unreachable!()
+        self.unexpected()
     }
 
     fn serialize_none(self) -> Result<Value> {
-        unreachable!()
+        self.unexpected()
     }
 
     fn serialize_some<T>(self, _value: &T) -> Result<Value>
     where
         T: ?Sized + Serialize,
     {
-        unreachable!()
+        self.unexpected()
     }
 
     fn serialize_unit(self) -> Result<Value> {
-        unreachable!()
+        self.unexpected()
     }
 
     fn serialize_unit_struct(self, _name: &'static str) -> Result<Value> {
-        unreachable!()
+        self.unexpected()
     }
 
     fn serialize_unit_variant(
@@ -905,14 +916,14 @@ impl ser::Serializer for TimeSerializer {
         _variant_index: u32,
         _variant: &'static str,
     ) -> Result<Value> {
-        unreachable!()
+        self.unexpected()
     }
 
     fn serialize_newtype_struct<T>(self, _name: &'static str, _value: &T) -> Result<Value>
     where
         T: ?Sized + Serialize,
     {
-        unreachable!()
+        self.unexpected()
     }
 
     fn serialize_newtype_variant<T>(
@@ -925,15 +936,15 @@ impl ser::Serializer for TimeSerializer {
     where
         T: ?Sized + Serialize,
     {
-        unreachable!()
+        self.unexpected()
     }
 
     fn serialize_seq(self, _len: Option<usize>) -> Result<Self::SerializeSeq> {
-        unreachable!()
+        self.unexpected()
     }
 
     fn serialize_tuple(self, _len: usize) -> Result<Self::SerializeTuple> {
-        unreachable!()
+        self.unexpected()
     }
 
     fn serialize_tuple_struct(
@@ -941,7 +952,7 @@ impl ser::Serializer for TimeSerializer {
         _name: &'static str,
         _len: usize,
     ) -> Result<Self::SerializeTupleStruct> {
-        unreachable!()
+        self.unexpected()
     }
 
     fn serialize_tuple_variant(
@@ -951,11 +962,11 @@ impl ser::Serializer for TimeSerializer {
         _variant: &'static str,
         _len: usize,
     ) -> Result<Self::SerializeTupleVariant> {
-        unreachable!()
+        self.unexpected()
     }
 
     fn serialize_map(self, _len: Option<usize>) -> Result<Self::SerializeMap> {
-        unreachable!()
+        self.unexpected()
     }
 
     fn serialize_struct_variant(
@@ -965,7 +976,7 @@ impl ser::Serializer for TimeSerializer {
         _variant: &'static str,
         _len: usize,
     ) -> Result<Self::SerializeStructVariant> {
-        unreachable!()
+        self.unexpected()
     }
 }
 
